@@ -74,7 +74,7 @@ func ruleR17aOffset(h *H) {
 
 func ruleR17b(h *H) {
 	const rule = "R17b"
-	h.Rule(rule, "K1", "every insertion into NotificationBatch.Notifications in server/kv is guarded by !strings.HasPrefix(key, internal prefix) for the inserted key", 3)
+	h.Rule(rule, "K1", "every insertion into NotificationBatch.Notifications in server/kv is guarded by !strings.HasPrefix(key, internal prefix) for the inserted key", 1)
 	n := 0
 	for _, fn := range h.P.Funcs {
 		if ir.RelPkg(ir.PkgPathOf(fn)) != "server/kv" {
@@ -239,6 +239,12 @@ func ruleR17d(h *H) {
 			var visit func(v ssa.Value, d int)
 			i := 0
 			visit = func(v ssa.Value, d int) {
+				if pv, isParam := v.(*ssa.Parameter); isParam {
+					// the dispatch loop was extracted: continue with the value its only caller passes
+					if a := ir.ParamArg(pv); a != nil {
+						v = a
+					}
+				}
 				if seenV[v] || d > 6 {
 					return
 				}
